@@ -51,7 +51,7 @@ def params(tier):
     if tier == 'quick':
         return {'examples': 3000, 'wall': 80, 'case_timeout': 40}
 
-    return {'examples': 30000, 'wall': 1500, 'case_timeout': 60}
+    return {'examples': 30000, 'wall': 600, 'case_timeout': 60}
 
 
 def floors(tier):
